@@ -87,6 +87,25 @@ claim("C15", CONC,
       "Trusted lemma (not checked): mutual exclusion + the sequential contract of each critical section imply that every target is handed out exactly once and exhaustion is reported to every later caller; data races inside bufio/os are the stubs' business. Stated assumption: fewer than 2^63 draws.",
       "DESIGN.md 8/C15")
 
+claim("C17", PROOF + "; floats as reals for lttb",
+      "Proof, with floating point treated as real arithmetic in lttb.Downsample: for every count and threshold and every iterator satisfying the Iter type contract, Downsample returns the points unchanged when threshold >= count or threshold == 0, rejects thresholds 1 and 2 (and negative ones) below count with an error, and otherwise returns exactly threshold points, "
+      "the first and the last point of the input included and every other output point being input point six(k) with 1 <= six(1) < six(2) < ... < count-1 (a subsequence) -- loop invariant over the bucket arithmetic, all index/overflow obligations discharged; sample always returns a point of the current bucket. "
+      "labeledSeries.add buffers out-of-order results by sequence number and releases them in sequence order, each exactly once (buffer' = buffer + {seq} - released run; released as far as possible), at x = (timestamp - timestamp of seq 0)/1e6 ms; timeSeries.add pushes a point exactly once or rejects it leaving the series unchanged.",
+      "Assumption: machine floating point treated as mathematical reals in Downsample (IEEE rounding of float64(i+1)*size could move a bucket boundary by one; the code's len(points)==0 fallback tolerates that, the proof does not model it). Trusted: Iter type contract (assumed for timeSeries.iter), tsz stubs, Labeler type contract. Stated: count <= 2^61, attack shorter than 292 years, each sequence number added once, timestamps follow sequence order (C05). "
+      "Not covered: Plot.data (row assembly, NaN padding, sort), timeSeries.iter, HTML/JSON text emitted, tsz compression.",
+      "DESIGN.md 8/C17")
+
+claim("C07", PROOF,
+      "Proof over assumed strconv/base64/csv/textproto contracts: the CSV encoder hands csv.Writer exactly twelve columns in the documented order and units (unix-ns timestamp, code, latency ns, bytes out, bytes in, error, base64 body, attack, seq, method, url, base64 MIME headers) and flushes once per record; the CSV decoder, given a 12-field record, assigns every column to the matching Result field with the inverse conversion; "
+      "lemma csv_roundtrip_scalars derives decode(encode(x)) == x for every scalar column from the (assumed) library inverse pairs; headerBytes yields an empty column for nil headers.",
+      "Trusted: stubs and inverse-pair axioms of strconv.Format*/Parse*, base64, csv.Reader/Writer, textproto, http.Header.Write. Not covered: gob (reflection inside encoding/gob), the generated easyjson JSON codec (key/field pairing not yet under contract: trusted contracts), that header MIME serialisation round-trips, 'fields the Result type gains later'.",
+      "DESIGN.md 8/C07")
+
+claim("C09", PROOF,
+      "Proof: the JSON decoder closure hands only complete newline-terminated lines to the unmarshaller; when the line read fails (stream cut inside the last record) it returns the error before touching *r, so a torn record is never decoded; at most one record per call. The CSV and JSON encoder closures emit exactly one whole record (JSON: record, newline, one DumpTo; CSV: one Write, one Flush) per call, so every point between calls is a record boundary; the CSV decoder requires 12 fields per record (FieldsPerRecord as object invariant).",
+      "Trusted: stubs for bufio.Reader.ReadBytes, csv.Reader/Writer, jwriter, the generated marshallers (trusted contracts). Not covered: gob's length framing and csv.Reader's behaviour on a torn record (library internals), the attack command's result pump.",
+      "DESIGN.md 8/C09")
+
 claim("C18", CONC,
       "Proof for all inputs/schedules: firstOfEachIPFamily returns at most one address per IP family, each the first of its family, and modifies nothing (frame: no element of the cache-owned input slice changes); the DNSCaching dial function never writes to the slice handed out by the DNS cache -- also not inside the shuffle callback, which is executed symbolically for arbitrary indices -- shuffles before picking, uses the random generator only with rngMu held, dials JoinHostPort(picked ip, original port) and receives exactly one result per started dial; "
       "the ConnectTo dial function forwards unmapped addresses unchanged, sends the n-th dial of a mapped address to addrs[n mod k] (lemma rotation_period: even rotation) and touches the rotation counter only through one atomic add (declared atomic: any plain access fails a lock obligation); the custom resolver's address() rotates the same way.",
@@ -94,6 +113,6 @@ claim("C18", CONC,
       "Not covered: that the shuffled slice is a permutation (so 'dials go to a currently resolved address' rests on the stub), uniformity of math/rand, dnscache internals, happy-eyeballs timing, the order of option composition in the command.",
       "DESIGN.md 8/C18")
 
-for p in ["C07","C08","C09","C16","C17"]:
+for p in ["C08","C16"]:
     na(p, "check not built yet (contracts planned in DESIGN.md section 8; engine features pending)")
 na("C11", "not applicable to contract-based verification: the property is the numerical accuracy of the external floating-point t-digest estimator (github.com/influxdata/tdigest); the in-repo code is three one-line delegations, so a contract could only restate an assumed contract of the library, which is the property itself (DESIGN.md section 9)")
